@@ -15,10 +15,16 @@ import (
 	"time"
 )
 
-// interned string literals: name -> literal term. Long strings are emitted once per shard as
-// Definitions (elaborating a string literal costs ~50us per byte in coqc, and most strings repeat).
-var interned = map[string]string{}
-var internRe = regexp.MustCompile(`\bzs[0-9a-f]{12}\b`)
+// Interned terms: long string literals and large subterms (XML elements) are emitted once per shard as
+// Definitions (elaborating a string literal costs ~50us per byte in coqc, and most strings / subtrees repeat).
+type internEntry struct {
+	typ  string
+	term string
+	seq  int
+}
+
+var interned = map[string]internEntry{}
+var internRe = regexp.MustCompile(`\bz[st][0-9a-f]{12}\b`)
 
 // S renders a Go string (bytes) as a Coq string term (interned when long).
 func S(s string) string {
@@ -28,38 +34,64 @@ func S(s string) string {
 	h := sha1.Sum([]byte(s))
 	name := "zs" + hex.EncodeToString(h[:6])
 	if _, ok := interned[name]; !ok {
-		interned[name] = rawS(s)
+		interned[name] = internEntry{"string", rawS(s), len(interned)}
+	}
+	return name
+}
+
+// T interns an arbitrary closed term of the given Coq type when it is long.
+func T(typ, term string) string {
+	if len(term) < 160 {
+		return term
+	}
+	h := sha1.Sum([]byte(typ + "\x00" + term))
+	name := "zt" + hex.EncodeToString(h[:6])
+	if _, ok := interned[name]; !ok {
+		interned[name] = internEntry{typ, term, len(interned)}
 	}
 	return name
 }
 
 func internDefs(text string) string {
 	names := map[string]bool{}
-	for _, m := range internRe.FindAllString(text, -1) {
-		names[m] = true
-	}
-	var keys []string
-	for k := range names {
-		if _, ok := interned[k]; ok {
-			keys = append(keys, k)
+	var visit func(t string)
+	visit = func(t string) {
+		for _, m := range internRe.FindAllString(t, -1) {
+			if e, ok := interned[m]; ok && !names[m] {
+				names[m] = true
+				visit(e.term)
+			}
 		}
 	}
-	sort.Strings(keys)
+	visit(text)
+	var keys []string
+	for k := range names {
+		keys = append(keys, k)
+	}
+	sort.Slice(keys, func(a, b int) bool { return interned[keys[a]].seq < interned[keys[b]].seq })
 	var b strings.Builder
 	for _, k := range keys {
-		fmt.Fprintf(&b, "Definition %s : string := %s.\n", k, interned[k])
+		fmt.Fprintf(&b, "Definition %s : %s := %s.\n", k, interned[k].typ, interned[k].term)
 	}
 	return b.String()
 }
 
 // expandInterned replaces interned names by their literals (replay files must be self-contained).
 func expandInterned(text string) string {
-	return internRe.ReplaceAllStringFunc(text, func(m string) string {
-		if lit, ok := interned[m]; ok {
-			return lit
+	for i := 0; i < 50 && internRe.MatchString(text); i++ {
+		changed := false
+		text = internRe.ReplaceAllStringFunc(text, func(m string) string {
+			if e, ok := interned[m]; ok {
+				changed = true
+				return e.term
+			}
+			return m
+		})
+		if !changed {
+			break
 		}
-		return m
-	})
+	}
+	return text
 }
 
 func rawS(s string) string {
